@@ -5,6 +5,7 @@ import PhononModel.Lemmas.DynMatRotTable
 import PhononModel.Lemmas.RecipOps
 import PhononModel.Lemmas.DynMatBatch
 import PhononModel.Lemmas.DynMatExample
+import PhononModel.Lemmas.HermitianSpectrum
 import Mathlib.Tactic.FinCases
 import Mathlib.Tactic.NormNum
 /-!
@@ -103,6 +104,69 @@ theorem frequency_under_scaling {K : Type} [Field K] [LinearOrder K] [IsStrictOr
     {sqrt : K → K} (h : IsSqrt sqrt) (factor lam c t : K) (hct : 0 < c / t) :
     frequency sqrt factor (c / t * lam) = sqrt (c / t) * frequency sqrt factor lam :=
   frequency_scaling h factor lam (c / t) hct
+
+/-! ### what Hermiticity buys the user: real diagonal, real spectrum, orthogonal eigenvectors -/
+
+/-- diagonal entries of the compiled kernel's matrix are real -/
+theorem dynmat_diag_real (T : DTables np nf ns nsv) (ph : Fin nsv → Cx R) (mm : Fin np → Fin np → R)
+    (fc : Fin nf → Fin ns → Fin 3 → Fin 3 → R) (i a) : (dynmatC T ph mm fc i a i a).im = 0 :=
+  Cx.herm_diag_im (ι := Fin np × Fin 3) (fun p q => dynmatC T ph mm fc p.1 p.2 q.1 q.2)
+    (fun p q => hermC_hermitian _ p.1 p.2 q.1 q.2) (i, a)
+
+/-- **every eigenvalue of the kernel's matrix is real** (real scalars: any ordered field — ℚ, ℝ): if
+`D v = λ v` for a non-zero `v` then `Im λ = 0`.  This is what licenses `eigvalsh`/`eigh` on the output and
+the definition `frequency = sign(λ) sqrt|λ|`. Any tables, force constants, phases, mass factors. -/
+theorem dynmat_eigenvalues_real {K : Type} [Field K] [LinearOrder K] [IsStrictOrderedRing K]
+    (T : DTables np nf ns nsv) (ph : Fin nsv → Cx K) (mm : Fin np → Fin np → K)
+    (fc : Fin nf → Fin ns → Fin 3 → Fin 3 → K) (v : Fin np × Fin 3 → Cx K) (lam : Cx K)
+    (hv : ∃ p, v p ≠ 0)
+    (hev : ∀ p, ∑ q, (dynmatC T ph mm fc).toMatrix p q * v q = lam * v p) : lam.im = 0 :=
+  Cx.herm_eigenvalue_real (fun p q => (dynmatC T ph mm fc).toMatrix p q)
+    (fun p q => hermC_hermitian _ p.1 p.2 q.1 q.2) v lam hv hev
+
+/-- the same for the Python reference implementation -/
+theorem dynmatPy_eigenvalues_real {K : Type} [Field K] [LinearOrder K] [IsStrictOrderedRing K]
+    (T : PyTables np nf ns nsv) (ph : Fin nsv → Cx K) (mm : Fin np → Fin np → K)
+    (fc : Fin nf → Fin ns → Fin 3 → Fin 3 → K) (v : Fin np × Fin 3 → Cx K) (lam : Cx K)
+    (hv : ∃ p, v p ≠ 0)
+    (hev : ∀ p, ∑ q, (dynmatPy T ph mm fc).toMatrix p q * v q = lam * v p) : lam.im = 0 :=
+  Cx.herm_eigenvalue_real (fun p q => (dynmatPy T ph mm fc).toMatrix p q)
+    (fun p q => hermPy_hermitian _ p.1 p.2 q.1 q.2) v lam hv hev
+
+/-- eigenvectors of two different eigenvalues are orthogonal (`v† w = 0`) -/
+theorem dynmat_eigenvectors_orthogonal {K : Type} [Field K] [LinearOrder K] [IsStrictOrderedRing K]
+    (T : DTables np nf ns nsv) (ph : Fin nsv → Cx K) (mm : Fin np → Fin np → K)
+    (fc : Fin nf → Fin ns → Fin 3 → Fin 3 → K) (v w : Fin np × Fin 3 → Cx K) (lam mu : Cx K)
+    (hv0 : ∃ p, v p ≠ 0)
+    (hv : ∀ p, ∑ q, (dynmatC T ph mm fc).toMatrix p q * v q = lam * v p)
+    (hw : ∀ p, ∑ q, (dynmatC T ph mm fc).toMatrix p q * w q = mu * w p)
+    (hne : lam ≠ mu) : ∑ p, Cx.conj (v p) * w p = 0 :=
+  Cx.herm_eigenvectors_orthogonal (fun p q => (dynmatC T ph mm fc).toMatrix p q)
+    (fun p q => hermC_hermitian _ p.1 p.2 q.1 q.2) v w lam mu
+    (dynmat_eigenvalues_real T ph mm fc v lam hv0 hv) hv hw hne
+
+/-- **real phases ⇒ real symmetric matrix**: where every phase factor is real (Γ, and every q with
+`2q` a reciprocal lattice vector of the supercell image set, e.g. zone-boundary points with phases ±1) the
+matrix is real and symmetric — from (1) and (2) alone. -/
+theorem dynmat_real_at_real_phases (T : DTables np nf ns nsv) (ph : Fin nsv → Cx R) (mm : Fin np → Fin np → R)
+    (fc : Fin nf → Fin ns → Fin 3 → Fin 3 → R) (hph : ∀ l, (ph l).im = 0) (i a j b) :
+    (dynmatC T ph mm fc i a j b).im = 0 ∧ dynmatC T ph mm fc j b i a = dynmatC T ph mm fc i a j b := by
+  have hc : (fun l => Cx.conj (ph l)) = ph := by
+    funext l; ext <;> simp [hph l]
+  have h := dynmat_time_reversal T ph mm fc
+  rw [hc] at h
+  have him : ∀ i a j b, (dynmatC T ph mm fc i a j b).im = 0 := by
+    intro i a j b
+    have h1 := congrArg Cx.im (h i a j b)
+    simp only [Cx.conj_im] at h1
+    have h2 : (2 : R) * (dynmatC T ph mm fc i a j b).im = 0 := by linear_combination h1
+    rcases mul_eq_zero.mp h2 with h3 | h3
+    · exact absurd h3 (by norm_num)
+    · exact h3
+  refine ⟨him i a j b, ?_⟩
+  have hh := hermC_hermitian (dynmatRawC T ph mm fc) i a j b
+  have e : dynmatC T ph mm fc j b i a = Cx.conj (dynmatC T ph mm fc j b i a) := (h j b i a)
+  rw [e]; exact hh
 
 /-! ### acoustic modes at the zone centre -/
 
@@ -320,3 +384,8 @@ end PhononModel.C03
 #print axioms PhononModel.C03.dynmat_rotation_fourier
 #print axioms PhononModel.C03.reciprocal_ops_closed
 #print axioms PhononModel.C03.reciprocal_ops_neg_closed
+#print axioms PhononModel.C03.dynmat_diag_real
+#print axioms PhononModel.C03.dynmat_eigenvalues_real
+#print axioms PhononModel.C03.dynmatPy_eigenvalues_real
+#print axioms PhononModel.C03.dynmat_eigenvectors_orthogonal
+#print axioms PhononModel.C03.dynmat_real_at_real_phases
